@@ -49,6 +49,17 @@ def make_app():
                        out_protocol=Soap11(polymorphic=True))
 
 
+def make_app_lxml():
+    """Fifth application: Soap11 with schema validation (one compiled schema object serves every request)."""
+    from spyne import Application, Service, srpc, Integer, Unicode
+    from spyne.protocol.soap import Soap11
+
+    class S(Service):
+        @srpc(Integer(ge=0), Unicode(max_len=3), _returns=Integer)
+        def v(a, s): return a
+    return Application([S], 'tns', name='App5', in_protocol=Soap11(validator='lxml'), out_protocol=Soap11())
+
+
 def make_app_json():
     """Second application: HttpRpc in, JsonDocument(complex_as=list) out, a class whose members carry
     protocol-specific attributes (order, sub_name) - so that the per-protocol caches (_attrcache,
@@ -130,6 +141,8 @@ def make_app_jx():
     return Application([S], 'tns', name='App4', in_protocol=JsonDocument(validator='soft'), out_protocol=XmlDocument())
 
 
+LX_REQS = {'vneg': '<tns:v><tns:a>-5</tns:a><tns:s>ab</tns:s></tns:v>', 'vlong': '<tns:v><tns:a>5</tns:a><tns:s>abcdef</tns:s></tns:v>',
+           'vok': '<tns:v><tns:a>5</tns:a><tns:s>ab</tns:s></tns:v>', 'vabc': '<tns:v><tns:a>abc</tns:a><tns:s>ab</tns:s></tns:v>'}
 JX_REQS = {
     'jreg': ('application/json', b'{"register": {"a": {"name": "ann", "secret": "opensesame"}}}'),
     'jchk1': ('application/json', b'{"check": {"a": {"name": "bob", "secret": "hunter2"}}}'),
@@ -168,7 +181,7 @@ def env_for(name):
     if name == 'wsdl':
         return {'REQUEST_METHOD': 'GET', 'PATH_INFO': '/', 'QUERY_STRING': 'wsdl', 'wsgi.input': io.BytesIO(b''),
                 'wsgi.url_scheme': 'http', 'SERVER_NAME': 'x', 'SERVER_PORT': '80'}
-    body = ('<e:Envelope xmlns:e="%s" xmlns:tns="tns"><e:Body>%s</e:Body></e:Envelope>' % (E, REQS[name])).encode()
+    body = ('<e:Envelope xmlns:e="%s" xmlns:tns="tns"><e:Body>%s</e:Body></e:Envelope>' % (E, LX_REQS[name] if name in LX_REQS else REQS[name])).encode()
     return {'REQUEST_METHOD': 'POST', 'PATH_INFO': '/', 'QUERY_STRING': '', 'CONTENT_TYPE': 'text/xml',
             'wsgi.input': io.BytesIO(body), 'wsgi.url_scheme': 'http', 'SERVER_NAME': 'x', 'SERVER_PORT': '80',
             'CONTENT_LENGTH': str(len(body))}
@@ -253,6 +266,8 @@ def targets():
     import spyne.interface._base as IB, spyne.util.memo as M, spyne.util.cdict as CD
     import spyne.protocol._base as PB, spyne.model._base as MB, spyne.server.wsgi as W
     import spyne.interface.wsdl.wsdl11 as WS, spyne.context as CX
-    return {IB.__file__: {'get_namespace_prefix'}, M.__file__: None, CD.__file__: None,
+    import spyne.protocol.xml as PX
+    return {PX.__file__: {'_XmlDocument__validate_lxml', '__validate_lxml'},
+            IB.__file__: {'get_namespace_prefix'}, M.__file__: None, CD.__file__: None,
             PB.__file__: None, MB.__file__: {'get_namespace_prefix', 'get_type_name_ns'},
             W.__file__: {'handle_wsdl_request'}, WS.__file__: {'build_interface_document', 'get_interface_document'}}
